@@ -270,7 +270,8 @@ let () = register "bpm" (fun args ->
   match args with
   | [t; p] ->
     let t = bytes_of_hexstr t and p = bytes_of_hexstr p in
-    Printf.sprintf "block=%d b64=%d b256=%d sed=%d sed1024=%d sed63=%d sed255=%d" (int_of_z (bpm_block t p)) (int_of_z (bpm64 t p)) (int_of_z (bpm256 t p))
+    Printf.sprintf "block=%d b64=%d b256=%d bblock=%d bb64=%d sed=%d sed1024=%d sed63=%d sed255=%d" (int_of_z (bpm_block t p)) (int_of_z (bpm64 t p)) (int_of_z (bpm256 t p))
+      (int_of_z (bpm_block_bits t p)) (int_of_z (bpm64_bits t p))
       (int_of_z (sed t p)) (int_of_z (sed t (firstn (nat_of_int 1024) p))) (int_of_z (sed t (firstn (nat_of_int 63) p))) (int_of_z (sed t (firstn (nat_of_int 255) p)))
   | _ -> "BADARGS")
 
